@@ -1,5 +1,6 @@
 (* Pins for C11: restated statements + assumptions. Generated once by tools/mkpins.py, then committed. *)
 Require Import VT.Tac VT.ListN VT.Width VT.Attrs VT.Cell VT.Row VT.Grid VT.Screen VT.Vte VT.Perform VT.Parser VT.RowInv VT.GridInv VT.ScreenInv VT.SbFrame.
+Require Import VT.Chunking.
 Require Import VT.AltSpec VT.AltSaved VT.AltRound VT.AltExamples.
 Require Import VT.Props.C11.
 Open Scope N_scope.
@@ -64,11 +65,11 @@ Check C11_primary_isolation_all : forall rz acts s evs0 s' evs, altmode s = fals
   perform_all rz s acts evs0 = Ok (s', evs) -> alt s' = alt s /\ altmode s' = false.
 Print Assumptions C11_primary_isolation_all.
 Check C11_process_alt_isolation : forall p bs q, altmode (scr p) = true ->
-  Forall (fun a => switch_free (resizing p) a = true) (snd (advance (vt p) bs)) ->
+  Forall (fun a => switch_free (resizing p) a = true) (snd (advance (vt p) (delivered p bs))) ->
   process p bs = Ok q -> g (scr q) = g (scr p) /\ altmode (scr q) = true.
 Print Assumptions C11_process_alt_isolation.
 Check C11_process_primary_isolation : forall p bs q, altmode (scr p) = false ->
-  Forall (fun a => switch_free (resizing p) a = true) (snd (advance (vt p) bs)) ->
+  Forall (fun a => switch_free (resizing p) a = true) (snd (advance (vt p) (delivered p bs))) ->
   process p bs = Ok q -> alt (scr q) = alt (scr p) /\ altmode (scr q) = false.
 Print Assumptions C11_process_primary_isolation.
 Check C11_set_scrollback_alt_isolation : forall s k, altmode s = true ->
@@ -163,7 +164,7 @@ Check C11_round_trip_reachable : forall rows cols cap rz p0 ops p e x i1 i2 acts
   1 <= rows <= MAXDIM -> 1 <= cols <= MAXDIM -> parser_new rows cols cap rz = Ok p0 ->
   Forall op_ok ops -> run p0 ops = Ok p ->
   altmode (scr p) = false -> e = 47 \/ e = 1049 -> x = 47 \/ x = 1049 ->
-  snd (advance (vt p) bs) = ENTER e i1 :: acts ++ [LEAVE x i2] ->
+  snd (advance (vt p) (delivered p bs)) = ENTER e i1 :: acts ++ [LEAVE x i2] ->
   Forall (fun a => switch_free (resizing p) a = true) acts ->
   exists q, process p bs = Ok q /\ screen_ok (scr q) /\ altmode (scr q) = false /\
     g (scr q) = exit_g x (with_sb (entry_g e (g (scr p))) (sb (g (scr p))) 0).
